@@ -20,6 +20,15 @@ import (
 
 func init() {
 	underscore.Disable()
+	// known findings: exact observed values (an alternative model of the recorded deviation)
+	engine.RegisterSignature("c14-regexp-prototype-no-data-properties", func(m *engine.Mismatch) bool {
+		return m.Family == "protokind" && strings.HasSuffix(m.Key, "/RegExp.prototype/kind") &&
+			m.Observed == "[object RegExp],true,source:absent,global:absent,ignoreCase:absent,multiline:absent,lastIndex:absent"
+	})
+	engine.RegisterSignature("c14-bound-function-own-prototype", func(m *engine.Mismatch) bool {
+		return m.Family == "dynfunc" && strings.Contains(m.Key, "prototype") && strings.Contains(m.Key, ".bind(null)") &&
+			m.Expected == "false" && m.Observed == "true"
+	})
 	engine.Register(&engine.Check{
 		ID:    "C14",
 		Title: "The standard library has the ES5 shape",
@@ -677,6 +686,12 @@ func runDynFunc(r *engine.Run) {
 		{`(function(){ var f = function(){}; return f.prototype.constructor === f && Object.getPrototypeOf(f.prototype) === Object.prototype })()`, "true"},
 		{`(function(){ var f = new Function("return 1"); return f.prototype.constructor === f })()`, "true"},
 		{`(function(){ function F(a){ this.a = a } var B = F.bind(null, 7); var o = new B(); return (o instanceof F) + "|" + o.a + "|" + (o instanceof B) })()`, "true|7|true"},
+		// 15.3.4.5: bound functions have no "prototype" property (NOTE at the end of the clause);
+		// "caller" and "arguments" are [[ThrowTypeError]] accessors (steps 20-21)
+		{`(function(){}).bind(null).hasOwnProperty("prototype")`, "false"},
+		{`("prototype" in Math.max.bind(null))`, "false"},
+		{`(function(){ var b = (function(){}).bind(null), r = []; try { b.caller; r.push("read") } catch (e) { r.push(e.name) } try { b.caller = 1; r.push("written") } catch (e) { r.push(e.name) } try { b.arguments; r.push("read") } catch (e) { r.push(e.name) } try { b.arguments = 1; r.push("written") } catch (e) { r.push(e.name) } return r.join() })()`, "TypeError,TypeError,TypeError,TypeError"},
+		{`(function(){ var b = (function(){}).bind(null), c = Object.getOwnPropertyDescriptor(b, "caller"), a = Object.getOwnPropertyDescriptor(b, "arguments"); return [typeof c.get, c.get === c.set, c.get === a.get, c.enumerable, c.configurable, a.enumerable, a.configurable].join() })()`, "function,true,true,false,false,false,false"},
 		{`(function(){ return arguments.length })(1, 2, 3)`, "3"}, {`(function(a){ return arguments.callee.length })()`, "1"},
 	}
 	for _, cfg := range configs {
@@ -712,7 +727,8 @@ func runDynFunc(r *engine.Run) {
 // Boolean.prototype a Boolean object whose value is false (15.6.4), Number.prototype a Number
 // object whose value is +0 (15.7.4), Date.prototype a Date object whose time value is NaN
 // (15.9.5), Function.prototype a function that accepts any arguments and returns undefined
-// (15.3.4), Error.prototype an Error object (15.11.4); Math and JSON are neither callable nor
+// (15.3.4), RegExp.prototype a regular expression whose data properties are those of new RegExp()
+// (15.10.6), Error.prototype an Error object (15.11.4); Math and JSON are neither callable nor
 // constructible (15.8, 15.12). Behavioural probes, each on a runtime of its own (the probes
 // write to the intrinsics), in every configuration.
 var protoKindRows = []struct{ name, src, want string }{
@@ -729,6 +745,8 @@ var protoKindRows = []struct{ name, src, want string }{
 	{"Error.prototype/kind", `[Object.prototype.toString.call(Error.prototype), Error.prototype.name, Error.prototype.message === "", Error.prototype.toString(), Object.getPrototypeOf(Error.prototype) === Object.prototype].join()`, "[object Error],Error,true,Error,true"},
 	{"NativeError.prototype/kind", `var out = [], L = [EvalError, RangeError, ReferenceError, SyntaxError, TypeError, URIError]; for (var i = 0; i < L.length; i++) { var P = L[i].prototype; out.push([Object.prototype.toString.call(P), P.name, P.message === "", Object.getPrototypeOf(P) === Error.prototype, Object.getPrototypeOf(L[i]) === Function.prototype].join(":")); } out.join()`,
 		"[object Error]:EvalError:true:true:true,[object Error]:RangeError:true:true:true,[object Error]:ReferenceError:true:true:true,[object Error]:SyntaxError:true:true:true,[object Error]:TypeError:true:true:true,[object Error]:URIError:true:true:true"},
+	{"RegExp.prototype/kind", `var P = RegExp.prototype, n = new RegExp(), r = [Object.prototype.toString.call(P), P.test("x")], names = ["source", "global", "ignoreCase", "multiline", "lastIndex"]; for (var i = 0; i < names.length; i++) { var d = Object.getOwnPropertyDescriptor(P, names[i]), e = Object.getOwnPropertyDescriptor(n, names[i]); r.push(names[i] + ":" + (d ? [d.value === e.value, d.writable === e.writable, d.enumerable, d.configurable].join("/") : "absent")); } r.join()`,
+		"[object RegExp],true,source:true/true/false/false,global:true/true/false/false,ignoreCase:true/true/false/false,multiline:true/true/false/false,lastIndex:true/true/false/false"},
 	{"Object.prototype/kind", `[Object.getPrototypeOf(Object.prototype) === null, Object.isExtensible(Object.prototype), Object.prototype.toString.call(Object.prototype)].join()`, "true,true,[object Object]"},
 	{"Math/not-a-function", `var r = [typeof Math, Object.prototype.toString.call(Math), Object.getPrototypeOf(Math) === Object.prototype]; try { Math(); r.push("called") } catch (e) { r.push(e.name) } try { new Math; r.push("constructed") } catch (e) { r.push(e.name) } r.join()`, "object,[object Math],true,TypeError,TypeError"},
 	{"JSON/not-a-function", `var r = [typeof JSON, Object.prototype.toString.call(JSON), Object.getPrototypeOf(JSON) === Object.prototype]; try { JSON(); r.push("called") } catch (e) { r.push(e.name) } try { new JSON; r.push("constructed") } catch (e) { r.push(e.name) } r.join()`, "object,[object JSON],true,TypeError,TypeError"},
